@@ -338,7 +338,7 @@ impl Check for C10 {
         "C10"
     }
     fn rule(&self) -> String {
-        "proptest-generated regular files with mode uniform over 0..07777 (forced coverage of 04000/02000/01000, 0, 07777), mtimes from 1970+1ns to 2100 with sub-second parts, 0-3 user.* xattrs (empty, text, binary with NULs, 3000 bytes), uid:gid in {0,1,1000,65534}, optional pre-existing destination with its own mode (0..0777) and mtime; flags subsets of --no-perms/--no-timestamps/--ownership; umask 0/022/077; both drivers, workers 0..16, block sizes making 1..49 blocks; a tenth of the cases under the supervisor with one starved worker; a quarter as a single file-to-file copy; option noise (--fsync --backup=numbered --reflink=never -v). Oracle on exit 0: mode&07777 equal, mtime equal to the nanosecond, user xattrs equal, with --ownership uid/gid equal and mode still equal; --no-perms: previous mode or 0666&~umask; --no-timestamps: mtime between two marker files touched around the run on the same filesystem. Non-trivial: exit 0 and (special bit or sub-second mtime or xattr or ownership or multi-block); distinct by case hash.".into()
+        "proptest-generated regular files with mode uniform over 0..07777 (forced coverage of 04000/02000/01000, 0, 07777), mtimes from 1970+1ns to 2100 with sub-second parts, 0-3 user.* xattrs (empty, text, binary with NULs, 3000 bytes; names ASCII, UTF-8 and not valid UTF-8), uid:gid in {0,1,1000,65534}, optional pre-existing destination with its own mode (0..0777) and mtime; flags subsets of --no-perms/--no-timestamps/--ownership; umask 0/022/077; both drivers, workers 0..16, block sizes making 1..49 blocks; a tenth of the cases under the supervisor with one starved worker; a quarter as a single file-to-file copy; option noise (--fsync --backup=numbered --reflink=never -v). Oracle on exit 0: mode&07777 equal, mtime equal to the nanosecond, user xattrs equal, with --ownership uid/gid equal and mode still equal; --no-perms: previous mode or 0666&~umask; --no-timestamps: mtime between two marker files touched around the run on the same filesystem. Non-trivial: exit 0 and (special bit or sub-second mtime or xattr or ownership or multi-block); distinct by case hash.".into()
     }
     fn assumptions(&self) -> Vec<String> {
         vec!["runs as root with CAP_CHOWN/CAP_FSETID (the privileged branch the property names); pre-existing destination modes limited to 0..0777".into()]
